@@ -524,8 +524,13 @@ def run_r6(ctx, yastn, rng, pid, key, count):
     def variant(l):
         base = [p for p in pool if compatible(p, l) and p.s == l.s]
         return union_leg(cfg, l.s, l, rng.choice(base)) if base and rng.random() < 0.6 else l
-    x = tgen.rand_tensor(rng, cfg, symname, [variant(l) for l in legs], cplx=cplx, n=cfg.sym.zero(), drop=0.3, allow_empty=False)
-    y = tgen.rand_tensor(rng, cfg, symname, [variant(l) for l in legs], cplx=cplx, n=cfg.sym.zero(), drop=0.3, allow_empty=False)
+    lx, ly = [variant(l) for l in legs], [variant(l) for l in legs]
+    if not all(compatible(a_, b_) for a_, b_ in zip(lx, ly)):
+        # two enlargements of one leg may give a charge DIFFERENT dimensions (each is compatible with the base leg only): then x and y
+        # are incompatibly fused operands and rejecting <B1|B2> is right - outside this relation's premise
+        count("views:R6:operand-legs-incompatible"); return
+    x = tgen.rand_tensor(rng, cfg, symname, lx, cplx=cplx, n=cfg.sym.zero(), drop=0.3, allow_empty=False)
+    y = tgen.rand_tensor(rng, cfg, symname, ly, cplx=cplx, n=cfg.sym.zero(), drop=0.3, allow_empty=False)
     if x.size == 0 or y.size == 0:
         return
     fx, fy, prog = x, y, []
@@ -547,8 +552,14 @@ def run_r6(ctx, yastn, rng, pid, key, count):
     ctx.case({"relation": "R6", "sym": symname, "depth": len(prog)}, nontrivial=len(x.struct.t) >= 2)
     count(f"views:R6:depth:{len(prog)}")
     kA = (0,) * fx.ndim; kB = (1,) + (0,) * (fx.ndim - 1)
+    common = fx.ndim >= 2 and rng.random() < 0.5     # the other legs declared common legs instead of blocked at equal positions
+    count(f"views:R6:{'common_legs' if common else 'all-blocked'}")
     try:
-        B1, B2 = yastn.block({kA: fx, kB: fy}), yastn.block({kA: fy, kB: fx})
+        if common:
+            cl = tuple(range(1, fx.ndim))
+            B1, B2 = yastn.block({(0,): fx, (1,): fy}, common_legs=cl), yastn.block({(0,): fy, (1,): fx}, common_legs=cl)
+        else:
+            B1, B2 = yastn.block({kA: fx, kB: fy}), yastn.block({kA: fy, kB: fx})
     except yastn.YastnError:
         count("views:R6:block-rejected"); return
     checks = [("<B1|B1> = <x|x> + <y|y>", lambda: yastn.vdot(B1, B1), lambda: yastn.vdot(x, x) + yastn.vdot(y, y)),
@@ -654,7 +665,58 @@ def run_r7(ctx, yastn, rng, pid, key, count):
         ctx.fail("oracle", f"{key}:views:R7:vdot", f"vdot of hard-fused operands with different charges raised {type(e).__name__}: {e}", case=case, concrete=True)
 
 
-RELATIONS = {"R1": run_r1, "R2": run_r2, "R3": run_r3, "R4": run_r4, "R5": run_r5, "R6": run_r6, "R7": run_r7}
+# --------------------------------------------------------------------------------------------------------------------
+# R8: a PRODUCT leg p(oo) and a DIRECT-SUM leg s(oo) with identical recorded constituents are incompatible
+# --------------------------------------------------------------------------------------------------------------------
+def run_r8(ctx, yastn, rng, pid, key, count):
+    """X carries P = fuse_legs of two legs {0: 2} (product, {0: 4}); Y carries Q = block() of two legs {0: 2} (direct sum, {0: 4}):
+    same signature, tree, charges and dimensions of leg and constituents - only the kind of the fusion node differs.  Every operation
+    that has to match the two decompositions (legs_union, block on a common leg / at the same position, to_numpy(legs=), +, vdot,
+    tensordot over the leg), also one fusion level deeper, must be rejected with YastnError, not computed."""
+    symname = rng.choice(tgen.SYM_NAMES)
+    cfg = tgen.make_cfg(symname, rng.choice(tgen.POLICIES), "hard", dtype="float64")
+    sg = rng.choice([1, -1])
+    if symname == "dense":
+        p = yastn.Leg(cfg, s=sg, D=(2,))
+    else:
+        p = yastn.Leg(cfg, s=sg, t=(cfg.sym.zero(),), D=(2,))
+    l = tgen.rand_leg(rng, cfg, symname, max_sectors=2, max_dim=3)
+    zero = cfg.sym.zero()
+    X = yastn.rand(config=cfg, legs=[l, p, p], n=zero).fuse_legs(axes=(0, (1, 2)), mode="hard")
+    y0, y1 = yastn.rand(config=cfg, legs=[l, p], n=zero), yastn.rand(config=cfg, legs=[l, p], n=zero)
+    Y = yastn.block({(0,): y0, (1,): y1}, common_legs=(0,))
+    deeper = rng.random() < 0.4
+    if deeper:   # p(l p(oo)) vs p(l s(oo))
+        X, Y = X.fuse_legs(axes=((0, 1),), mode="hard"), Y.fuse_legs(axes=((0, 1),), mode="hard")
+    ax = 0 if deeper else 1
+    lP, lQ = X.get_legs(ax), Y.get_legs(ax)
+    if (lP.s, lP.t, lP.D) != (lQ.s, lQ.t, lQ.D) or lP.history() == lQ.history():
+        count("views:R8:setup-differs"); return
+    case = {"relation": "R8", "sym": symname, "s": sg, "deeper": deeper, "l": [list(map(list, l.t)) if symname != "dense" else [], list(l.D), l.s]}
+    ctx.case(case, nontrivial=True)
+    count(f"views:R8:{'deeper' if deeper else 'flat'}")
+    other = tuple(i for i in range(X.ndim) if i != ax)
+    ops = [("legs_union(P, Q)", lambda: yastn.legs_union(lP, lQ)), ("legs_union(Q, P)", lambda: yastn.legs_union(lQ, lP)),
+           ("to_numpy(legs={ax: Q})", lambda: X.to_numpy(legs={ax: lQ})), ("to_numpy(legs={ax: P})", lambda: Y.to_numpy(legs={ax: lP})),
+           ("X + Y", lambda: X + Y), ("vdot(X, Y)", lambda: yastn.vdot(X, Y)),
+           ("tensordot over the leg", lambda: yastn.tensordot(X, Y, axes=(ax, ax), conj=(1, 0)))]
+    if not deeper:
+        ops += [("block on a common leg", lambda: yastn.block({(0,): X, (1,): Y}, common_legs=(1,))),
+                ("block at the same position", lambda: yastn.block({(0, 0): X, (1, 0): Y}))]
+    for name, fn in ops:
+        try:
+            fn()
+        except yastn.YastnError:
+            continue
+        except Exception as e:  # noqa: BLE001
+            ctx.fail("oracle", f"{key}:views:R8:raises", f"{name} on a product leg {lP.history()} and a direct-sum leg {lQ.history()} with identical recorded "
+                     f"constituents raised {type(e).__name__} instead of YastnError: {str(e)[:100]}", case=case, concrete=True)
+            continue
+        ctx.fail("oracle", f"{key}:views:R8:accepted", f"{name} on a product leg {lP.history()} and a direct-sum leg {lQ.history()} with identical recorded "
+                 f"constituents was computed instead of rejected with YastnError", case=case, concrete=True)
+
+
+RELATIONS = {"R1": run_r1, "R2": run_r2, "R3": run_r3, "R4": run_r4, "R5": run_r5, "R6": run_r6, "R7": run_r7, "R8": run_r8}
 
 
 def run(ctx, ncases, budget, which=("R1", "R1", "R1", "R2", "R3", "R4"), key=None):
